@@ -833,7 +833,7 @@ func (fr *Frame) checkInvariant(li *loopInfo, st *State, g string, env map[*ssa.
 			vc.addObl(&Obligation{
 				Name:  fmt.Sprintf("%s#loop%d.inv.%s.%s%s", vc.unit, li.ordinal, label, phase, suffix),
 				Kind:  "inv." + phase, Props: fr.props(), Guard: g, Goal: t,
-				Src: c.Src, File: c.File, Line: c.Line, Pos: vc.eng.pos(pos),
+				Src: c.Src, File: c.File, Line: c.Line, Pos: vc.eng.pos(pos), Extra: vc.clauseLemmas(c),
 			})
 		}
 	}
@@ -1690,4 +1690,16 @@ func (vc *VC) retype(term string, from, to types.Type) string {
 		vals = append(vals, vc.retype(fv, fs.Field(i).Type(), ts.Field(i).Type()))
 	}
 	return vc.structMake(to, vals)
+}
+
+func (vc *VC) clauseLemmas(c Clause) []string {
+	var out []string
+	for _, u := range c.Uses {
+		t, ok := vc.lemmaTerms[u]
+		if !ok {
+			panic(bindErr("clause uses lemma " + u + " which is not listed in the function's `lemmas` clause"))
+		}
+		out = append(out, t)
+	}
+	return out
 }
